@@ -227,6 +227,53 @@ def make_round(r, name, k, pool, per_thread, jitter, timeout):
     return (f"{name}-{mode}", k, paths, lists, jitter, timeout)
 
 
+def pathless_pairs(ctx, quick):
+    """in-memory sources (no file path: REPL line, editor buffer, web playground) that share a textual HEAD and use the variables bound in
+    it at different types afterwards, compiled by four threads at once, 100 (thorough 400) jobs each, alternating; reference = the same
+    source compiled alone on the main thread of that process with the same (absent) path.  Seeded C19d shared the slot of a located
+    childless type between two stores of `the same` (type, location) pair and forgot type variables, whose equality only compares the
+    per-compilation number: two inferences then bound each other's variable (a diagnostic of the other thread's program)."""
+    d = os.path.join(c15.WORK, "C19pathless")
+    os.makedirs(d, exist_ok=True)
+    pairs = []
+    for width in ((6, 24, 60) if quick else (2, 6, 12, 24, 40, 60, 90)):
+        tup = "(" + ",".join(["a"] * width) + ")"
+        head = f"fn inc(x){{\n    x+1.0\n}}\nfn dbl(x){{\n    x*2.0\n}}\nfn mix(a){{\n    let t0 = {tup}\n    let t1 = {tup}\n"
+        pairs.append((f"w{width}n", head + "    a+1.0\n}\nfn dsp(){\n    mix(2.0)\n}\n", f"w{width}f", head + "    a(5.0)\n}\nfn dsp(){\n    mix(dbl)\n}\n"))
+        tup2 = "(" + ",".join(["x", "y"] * (width // 2)) + ")"
+        head2 = f"fn twice(f, v){{\n    f(f(v))\n}}\nfn pick(x, y){{\n    let u = {tup2}\n"
+        pairs.append((f"p{width}n", head2 + "    x + y\n}\nfn dsp(){\n    pick(1.0, 2.0)\n}\n", f"p{width}f", head2 + "    x(y)\n}\nfn inc(z){\n    z+1.0\n}\nfn dsp(){\n    pick(inc, 2.0)\n}\n"))
+    st = {"pairs": len(pairs), "jobs": 0, "differ": 0, "rounds_failed": 0}
+    bad = []
+    njobs = 100 if quick else 400
+    for na, sa, nb, sb in pairs:
+        pa, pb = os.path.join(d, na + ".mmm"), os.path.join(d, nb + ".mmm")
+        open(pa, "w").write(sa)
+        open(pb, "w").write(sb)
+        a = ["jobs", "--nopath", "1", "--timeout", "300", "--jitter", "0", "--paths", pa + "," + pb]
+        for t in range(4):
+            a += ["--thread", ",".join(str((t + j) % 2) for j in range(njobs))]
+        try:
+            p = mmh("C19", a, timeout=420)
+        except Exception as e:
+            st["rounds_failed"] += 1
+            bad.append({"pair": [na, nb], "kind": "watchdog-timeout(deadlock?)", "err": str(e)[:200], "sources": {na: sa, nb: sb}})
+            continue
+        r = parse(p.stdout)
+        if r["DEADLOCK"] or r["DIED"] or p.returncode != 0 or not r["DONE"]:
+            st["rounds_failed"] += 1
+            bad.append({"pair": [na, nb], "kind": "deadlock-or-crash", "rc": p.returncode, "stderr": p.stderr[-400:], "sources": {na: sa, nb: sb}})
+            continue
+        for f in r["J"]:
+            st["jobs"] += 1
+            if f[4] == "0":
+                st["differ"] += 1
+                if len(bad) < 3 or not any(b.get("pair") == [na, nb] for b in bad):
+                    bad.append({"pair": [na, nb], "kind": "interference", "thread": f[1], "job": f[2], "target": f[3], "status": f[5],
+                                "differs_in": f[6], "sources": {na: sa, nb: sb}})
+    return st, bad
+
+
 def main(ctx, args):
     ctx.assumptions += [
         "Model/Interner.lean models the PROTOCOL of interner.rs (every API call one atomic step on append-only tables); the compiler proper is not modelled",
@@ -311,6 +358,13 @@ def main(ctx, args):
         ctx.violation("a `Symbol::as_str` slice is left dangling by concurrent interning: " + probe.get("first", "")[:200],
                       dict(probe, kind="as_str-slice-dangles", threads=8, rounds=300, replay_cmd="target/debug/c19 asstr 8 300",
                            what_to_look_at="third column of the @@ASSTR line = held slices whose text moved"))
+    pst, pbad = pathless_pairs(ctx, quick)
+    ctx.coverage["in_memory_sources_with_a_common_head"] = pst
+    if pbad:
+        b = pbad[0]
+        ctx.violation(f"{pst['differ']} of {pst['jobs']} concurrent compilations of in-memory sources that share a textual head got another result than the same "
+                      f"source compiled alone ({b['kind']}; pair {b['pair']}, differs in {b.get('differs_in', '?')})",
+                      dict(b, kind2="pathless-common-head", failing=len(pbad), replay_cmd="target/debug/c19 jobs --nopath 1 --paths A,B --thread 0,1,0,1,… ×4"))
     # rendered diagnostics under one path (more rounds in the thorough tier and whenever a proof obligation of C19 is broken)
     heavy = (not quick) or bool(getattr(ctx, "_pending_obligation", None)) or not proved
     reps = [report_probe(4, 60), report_probe(8, 40)] + ([report_probe(16, 300), report_probe(4, 1500)] if heavy else [])
